@@ -120,6 +120,7 @@ pub fn drive(name: &str, out: &str, args: &[String]) {
         "risk" => risk_driver(out, seed, arg(args, 1, 100)),
         "liq" => liq_driver(out, seed, arg(args, 1, 100)),
         "admin" => admin_driver(out, seed, arg(args, 1, 100)),
+        "curve" => curve_driver(out, seed, arg(args, 1, 1000)),
         _ => {
             eprintln!("unknown driver {}", name);
             std::process::exit(2);
@@ -844,5 +845,73 @@ fn admin_driver(out: &str, seed: u64, n: u64) {
         }
     }
     eprintln!("admin driver: {} scenarios, {} events", n, r.events);
+    r.finish();
+}
+
+// ------------------------------------------------------------------------------------------------
+// curve driver (C18): random full-range seven-point curves (valid by construction, plus single defects)
+// and legacy curves, dense utilization sweeps around every breakpoint
+// ------------------------------------------------------------------------------------------------
+fn curve_driver(out: &str, seed: u64, n: u64) {
+    use fixed::types::I80F48;
+    let mut rng = StdRng::seed_from_u64(seed);
+    let mut r = Recorder::new(&format!("{}/curve.trace", out), vec![]);
+    r.begin(&[]);
+    let fx = |v: I80F48| crate::num::big_i(v.to_bits());
+    for _ in 0..n {
+        let k = rng.gen_range(0..=5usize);
+        let mut utils: Vec<u32> = (0..k).map(|_| match rng.gen_range(0..6) {
+            0 => rng.gen_range(1..10),
+            1 => u32::MAX - rng.gen_range(0..10),
+            _ => rng.gen_range(1..u32::MAX),
+        }).collect();
+        utils.sort();
+        utils.dedup();
+        let mut rates: Vec<u32> = (0..utils.len() + 2).map(|_| match rng.gen_range(0..5) {
+            0 => 0,
+            1 => u32::MAX,
+            _ => rng.gen::<u32>(),
+        }).collect();
+        rates.sort();
+        let zero = rates[0];
+        let hundred = rates[rates.len() - 1];
+        let mut pts: Vec<(u32, u32)> = utils.iter().enumerate().map(|(i, u)| (*u, rates[i + 1])).collect();
+        // occasionally adjacent utilizations (steepest possible segment) or a single defect
+        match rng.gen_range(0..12) {
+            0 if pts.len() >= 2 => { pts[1].0 = pts[0].0 + 1; let (a, b) = (pts[0].1, pts[1].1); if pts.len() > 2 && pts[2].0 <= pts[1].0 { pts.truncate(2); } pts[1].1 = b.max(a); }
+            1 if pts.len() >= 2 => { pts.swap(0, 1); }
+            2 if !pts.is_empty() => { pts[0].1 = pts[0].1.wrapping_add(rng.gen()); }
+            3 if pts.len() >= 2 => { pts[0] = (0, 0); }
+            _ => {}
+        }
+        let mut p5: Vec<Value> = pts.iter().map(|(u, r)| json!([u, r])).collect();
+        while p5.len() < 5 { p5.push(json!([0, 0])); }
+        let mut urs: Vec<I80F48> = vec![I80F48::ZERO, I80F48::from_bits(1), I80F48::ONE, I80F48::ONE + I80F48::from_bits(1), I80F48::from_num(2), I80F48::from_num(-1)];
+        for (u, _) in pts.iter() {
+            let x = I80F48::from_num(*u) / I80F48::from_num(u32::MAX);
+            for d in [-2i128, -1, 0, 1, 2] {
+                urs.push(I80F48::from_bits((x.to_bits() + d).max(0)));
+            }
+        }
+        for _ in 0..24 {
+            urs.push(I80F48::from_bits(rng.gen_range(0..=I80F48::ONE.to_bits())));
+        }
+        urs.sort();
+        let fees = match rng.gen_range(0..3) {
+            0 => json!({}),
+            1 => json!({"ins_fixed":"0.01","ins_ir":"0.1","grp_fixed":"0.02","grp_ir":"0.3"}),
+            _ => json!({"ins_ir":"2","grp_fixed":"0.5","prog_fixed":"0.01","prog_rate":"0.025"}),
+        };
+        if rng.gen_bool(0.1) {
+            let opt = *pick(&mut rng, &["0.5", "0.8", "0.999", "0.0001", "0", "1"]);
+            let pl = *pick(&mut rng, &["0.1", "0.0001", "3", "0"]);
+            let mx = *pick(&mut rng, &["1", "0.2", "9.99", "0.05"]);
+            r.act(json!({"op":"curve","legacy":{"opt":opt,"plateau":pl,"max":mx},"fees":fees,"program_fees":rng.gen_bool(0.5),
+                         "urs": urs.iter().map(|u| fx(*u)).collect::<Vec<_>>()}));
+        } else {
+            r.act(json!({"op":"curve","zero":zero,"hundred":hundred,"points":p5,"fees":fees,"program_fees":rng.gen_bool(0.5),
+                         "urs": urs.iter().map(|u| fx(*u)).collect::<Vec<_>>()}));
+        }
+    }
     r.finish();
 }
